@@ -441,8 +441,9 @@ def _run(task, I, res, seed, tier):
                 agree.append(z3.And(*pc_s, as_formula(e)))
             goal = z3.Or(*agree) if agree else z3.BoolVal(False)
             solve_clause(f"{task.name}: path {i} ({_kind(o)}) agrees with the spec", p["pc"], goal)
-    for nm, hyps, goal in task.extra_obligations(I, inp, code_paths):
-        solve_clause(f"{task.name}: {nm}", hyps, goal)
+    for extra in task.extra_obligations(I, inp, code_paths):
+        nm, hyps, goal = extra[:3]
+        solve_clause(f"{task.name}: {nm}", hyps, goal, kind=(extra[3] if len(extra) > 3 else "vc"))
     if incomplete:
         for o in obls:
             if o["status"] == "discharged":
